@@ -52,3 +52,7 @@ Check (C16_duration_wrap_witness_refuted : (exists b ops, match build b [] with
                 | inl m0 => let '(m, rs) := run m0 ops in
                             In 4 (failed_C16_mux b ops (map class_of rs) (sink_of m))
                 | inr _ => False end)%type).
+Check (C16_parameter_set_clause_never_fails : (forall b m0 ops m rs s,
+  build b [] = inl m0 -> run m0 ops = (m, rs) -> In (RStats s) rs ->
+  Forall op_payload_ok ops -> len (sink_of m) < 4294967296 ->
+  ~ In 7 (failed_C16_mux b ops (map class_of rs) (sink_of m)))%type).
